@@ -125,8 +125,10 @@ def check(R, F, P, cfg):
             continue
         # shared private helpers (set_bits, a generic stepping helper ...): evaluated at their callers, where they are expanded
         # with the actual masks / closures; their own generic body is skipped
-        if f.npath not in expect and any(cf.npath.startswith((CM, WCM)) and cf.npath != f.npath for (cf, _b, _c) in P.callers(f.id)):
-            continue
+        if f.npath not in expect:
+            cs_ = [cf for (cf, _b, _c) in P.callers(f.id) if cf.npath != f.npath]
+            if all(cf.npath.startswith((CM, WCM)) for cf in cs_):      # only used inside the marker modules (or, in this configuration, not at all)
+                continue
         for x in sets:
             seen += 1
             covered.add(f.npath)
